@@ -52,6 +52,25 @@ func main() {
 	if s, err := strconv.Atoi(os.Getenv("VERIF_SEED")); err == nil {
 		seed = s
 	}
+	if *prop == "funcs" {
+		// name, file and line range of every function declaration of the module (used by the generic mutant sweep)
+		pg, err := core.Load(core.Config{Name: "default", Dir: *repo})
+		if err != nil {
+			fmt.Println("load:", err)
+			os.Exit(2)
+		}
+		for _, pk := range pg.ModulePkgs() {
+			for _, fd := range pg.FuncDecls(pk) {
+				if fd.Body == nil || pg.IsTestFile(fd.Pos()) {
+					continue
+				}
+				a := pg.Fset.Position(fd.Pos())
+				b := pg.Fset.Position(fd.End())
+				fmt.Printf("%s\t%s\t%d\t%d\n", core.DeclName(pk, fd), a.Filename, a.Line, b.Line)
+			}
+		}
+		return
+	}
 	if *prop == "all" {
 		// mutant / seed runs: load once, run every property's rules, one line per reported obligation
 		runAll(*repo, *verif, *overlayFile)
